@@ -54,6 +54,7 @@ def closedIn : Nat → E → Bool
   | l, .max a b => closedIn l a && closedIn l b
   | l, .min a b => closedIn l a && closedIn l b
   | l, .ifpos c a b => closedIn l c && closedIn l a && closedIn l b
+  | l, .ifzero c a b => closedIn l c && closedIn l a && closedIn l b
   | l, .usum e => closedIn (l + 1) e
   | l, .wsum e => closedIn (l + 1) e
   | l, .kmax e => closedIn (l + 1) e
@@ -148,6 +149,9 @@ theorem eval_relabel (G : Gr) (idx : Nat → Nat)
     simp only [closedIn, Bool.and_eq_true] at hc
     simp only [eval, iha env henv hc.1, ihb env henv hc.2]
   | ifpos c a b ihc iha ihb =>
+    simp only [closedIn, Bool.and_eq_true] at hc
+    simp only [eval, ihc env henv hc.1.1, iha env henv hc.1.2, ihb env henv hc.2]
+  | ifzero c a b ihc iha ihb =>
     simp only [closedIn, Bool.and_eq_true] at hc
     simp only [eval, ihc env henv hc.1.1, iha env henv hc.1.2, ihb env henv hc.2]
   | usum e ih =>
